@@ -382,3 +382,94 @@ contract(F, 'Pgate.__embed__', props=('C13',), params={'self': 'self', 'inevent'
          policies={STREAM: role_stream({'pattern': 'any'}), 'counter': counter_pol, 'sc3/base/stream.py::embed': pg_embed},
          class_modules={'Pgate': F, 'Pn': F},
          hooks={'getattr': pg_getattr, 'compare': pg_compare, 'ext': pl_copy}, opts={'generator_trace': True}, native=False)
+
+
+# ---- Pseed: the pattern replayed under given random seeds -------------------------------------------------------------------------
+# every pass draws ONE seed, makes a FRESH routine (its body embeds the pattern), gives it that seed BEFORE anything is
+# drawn from it, and embeds the routine's stream in place with the threaded input; the end of the seed stream ends it.
+def sd_construct(eng, f, args, kwargs, st, node):
+    if f.k == 'class' and f.py == 'Routine':
+        r = V('obj', oid='routine!%d' % next(eng.counter), extra={'routine': True, 'func': args[0] if args else None})
+        st.trace.append(('routine-made', r))
+        return [(st, r)]
+    return None
+
+
+def sd_getattr(eng, obj, name, st, node):
+    if obj.k == 'module' and name == 'Routine':
+        return [(st, V('class', py='Routine'))]
+    return h_getattr(eng, obj, name, st, node)
+
+
+def sd_setattr(eng, obj, name, v, st, node):
+    if obj.k == 'obj' and obj.extra and obj.extra.get('routine') and name == 'rand_seed':
+        st.trace.append(('seeded', obj, v))
+        return [('next', st)]
+    return None
+
+
+def sd_stream(eng, selfv, args, kwargs, st, node):
+    src = args[0]
+    if src.k == 'obj' and src.extra and src.extra.get('routine'):
+        r = V('obj', oid='stream-of-routine', extra={'routine-of': src})
+        st.trace.append(('routine-streamed', src, r))
+        return [(st, r)]
+    return role_stream({'rand_seed': 'any'})(eng, selfv, args, kwargs, st, node)
+
+
+def body_embeds_the_pattern(f):
+    """the routine's function (a nested generator function, read as source): `yield from <...>embed(self.pattern, <its
+    parameter>)`.  True / False when the body has that shape; None when it is written some other way (then the clause
+    says nothing: undecided, not wrong)"""
+    import ast as _a
+    if f is None or f.k != 'func' or not isinstance(f.py, tuple) or f.py[0] != 'closure':
+        return None
+    fdef = f.py[1]
+    if len(fdef.args.args) != 1:
+        return None
+    par = fdef.args.args[0].arg
+    body = [s_ for s_ in fdef.body if not (isinstance(s_, _a.Expr) and isinstance(s_.value, _a.Constant))]
+    if not body:
+        return False                                        # an empty body embeds nothing
+    if len(body) != 1:
+        return None
+    s_ = body[0]
+    v = s_.value if isinstance(s_, (_a.Expr, _a.Return, _a.Assign)) else None
+    if not isinstance(v, _a.YieldFrom) or not isinstance(v.value, _a.Call):
+        return False if isinstance(s_, _a.Pass) else None
+    call = v.value
+    if _a.unparse(call.func).split('.')[-1] != 'embed' or call.keywords or len(call.args) != 2:
+        return None
+    return _a.unparse(call.args[0]) == 'self.pattern' and _a.unparse(call.args[1]) == par
+
+
+def seed_pass(c, L):
+    ev = events(c, 0)
+    if ev is None:
+        return z3.BoolVal(True)
+    full = since(c.trace, 0)
+    order = [e[0] for e in full if e[0] in ('routine-made', 'draw', 'seeded', 'routine-streamed', 'embed', 'yield-from')]
+    if sorted(order) != sorted(['routine-made', 'draw', 'seeded', 'routine-streamed', 'embed', 'yield-from']):
+        return z3.BoolVal(False)
+    g = {k: [e for e in full if e[0] == k][0] for k in order}
+    pos = {k: full.index(g[k]) for k in order}
+    rout = g['routine-made'][1]
+    shape = body_embeds_the_pattern(rout.extra.get('func'))
+    if shape is None:
+        raise KeyError('the routine body is written in a way this clause does not read')
+    if not shape:
+        return z3.BoolVal(False)
+    ok = (g['draw'][1].extra.get('role') == 'rand_seed' and g['seeded'][1] is rout and g['seeded'][2] is g['draw'][2]
+          and g['routine-streamed'][1] is rout and g['embed'][1] is g['routine-streamed'][2]
+          and g['yield-from'][1] is g['embed'][3] and c.st.env['inval'] is g['yield-from'][2]
+          and pos['seeded'] < pos['embed'] and pos['routine-made'] < pos['seeded'])         # seeded BEFORE it runs
+    return z3.BoolVal(bool(ok))
+
+
+contract(F, 'Pseed.__embed__', props=('C13',), params={'self': 'self', 'inval': 'obj'},
+         ensures=[('returns-the-threaded-input-value', lambda c: z3.BoolVal(c.resultv is c.st.env['inval']))],
+         fields={'Pseed': {'pattern': 'obj', 'rand_seed': 'obj'}},
+         loops={0: Loop(inv=seed_pass, kinds={'inval': 'obj', 'rout': 'obj', 'func': 'obj'})},
+         policies={STREAM: sd_stream, 'sc3/base/stream.py::embed': pg_embed},
+         class_modules={'Pseed': F}, hooks={'getattr': sd_getattr, 'construct': sd_construct, 'setattr': sd_setattr},
+         opts={'generator_trace': True}, native=False)
